@@ -30,10 +30,36 @@ def _compiles(node):
         return False, type(e).__name__
 
 
-def _apply(pass_name, node):
+_REUSED = {}
+
+
+def _reused(kind):
+    """one transformer object used for many queries (as a long-lived backend does); it has seen a query that
+    gives the pass nothing to do before"""
+    if kind not in _REUSED:
+        if kind == "aggregate":
+            from func_adl.ast.aggregate_shortcuts import aggregate_node_transformer
+            obj = aggregate_node_transformer()
+        else:
+            from func_adl.ast.function_simplifier import simplify_chained_calls
+            obj = simplify_chained_calls()
+        obj.visit(ast.parse("Select(ds, lambda e: e.x)").body[0].value)
+        _REUSED[kind] = obj
+    return _REUSED[kind]
+
+
+def _apply(pass_name, node, flags=None):
+    if flags and flags.get("reuse") and pass_name in ("aggregate", "simplify"):
+        return _reused(pass_name).visit(node)
     if pass_name == "simplify":
         from func_adl.ast.function_simplifier import simplify_chained_calls
         return simplify_chained_calls().visit(node)
+    if pass_name == "simplify_fresh":
+        # as the first simplification of a process: the generator of fresh argument names starts at arg_0
+        # (the queries of this family already use such names, e.g. because they were simplified elsewhere before)
+        import func_adl.ast.function_simplifier as fs
+        fs.argument_var_counter = 0
+        return fs.simplify_chained_calls().visit(node)
     if pass_name == "simplify_m":     # method form first, as a backend does
         from func_adl.ast.func_adl_ast_utils import change_extension_functions_to_calls
         from func_adl.ast.function_simplifier import simplify_chained_calls
@@ -76,7 +102,7 @@ def run_one(job):
     signal.signal(signal.SIGPROF, _alarm)
     signal.setitimer(signal.ITIMER_PROF, CASE_TIMEOUT_S)
     try:
-        out = _apply(pass_name, node)
+        out = _apply(pass_name, node, flags)
         signal.setitimer(signal.ITIMER_PROF, 0)
         if pass_name == "extract_md":
             out, mds = out
